@@ -22,7 +22,7 @@ def _record(fn):
         return ["b", r]
     if isinstance(r, list):
         return ["l", [[repr(q.magnitude), str(q.unit)] for q in r]]
-    return ["v", repr(r.magnitude), str(r.unit)]
+    return ["v", convgen.show(r.magnitude), str(r.unit)]
 
 
 def ops_on(a, b, B):
@@ -95,6 +95,34 @@ def execute(case):
             classes = domain.pair_classes(A, B, m.One) + domain.regroup_class(A, B, m.One, sz)
             pairs.append({"shape": "+".join(classes) or "D_ok", "determined": sz.determined(A, B),
                           "label": f"{A} -> {B}", "ops": ops_on(m1 * A, 2 * B, B)})
+        return {"pairs": pairs}
+    if g == "unlinked":
+        # two small groups of units of one dimension with no declaration between the groups: every
+        # conversion across is impossible, whatever the magnitudes (ints of thousands of digits
+        # included: no arithmetic is ever done on them)
+        from ..world import World
+
+        try:
+            m1, m2 = convgen.mag_value(case["mag"]), convgen.mag_value(case["mag2"])
+            compound = bool(case.get("compound"))
+        except Exception:
+            return {"invalid": True}
+        w = World([])
+        m = w.m
+        a, a2, b, b2, t = (m.Unit.define(d, n, n) for d, n in ((m.Length, "ua"), (m.Length, "ua2"), (m.Length, "ub"), (m.Length, "ub2"), (m.Time, "ut")))
+        a2.equals(3 * a)
+        b2.equals(7 * b)
+        A, B = (a2 / t, b / t) if compound else (a2, b2)
+        pairs = [{"shape": "unlinked", "determined": False, "label": f"{A} -> {B}", "ops": ops_on(m1 * A, m2 * B, B)},
+                 {"shape": "unlinked", "determined": False, "label": f"{B} -> {A}", "ops": ops_on(m2 * B, m1 * A, A)}]
+        # a length that is declared only through a quotient of other units (as the Hubble length is
+        # through c/H0), against the other group
+        ar = m.Unit.define(m.Area, "uar", "uar")
+        a3 = m.Unit.define(m.Length, "ua3", "ua3")
+        a3.equals(2 * ar / a)
+        A3 = a3 / t if compound else a3
+        pairs += [{"shape": "unlinked", "determined": False, "label": f"{A3} -> {B}", "ops": ops_on(m1 * A3, m2 * B, B)},
+                  {"shape": "unlinked", "determined": False, "label": f"{B} -> {A3}", "ops": ops_on(m2 * B, m1 * A3, A3)}]
         return {"pairs": pairs}
     if g == "chain":
         from ..world import World
